@@ -17,7 +17,7 @@ func init() {
 		Meta: report.Meta{
 			Property: "C03",
 			Rule: "I: every initial store (v in {none, number, boolean, string} x w in {none, number, string}) x every statement (set/declare x {$v,$w} x {=,+=,-=,*=,/=,%=} x right-hand sides {2, 0, true, \"a\", other variable, unknown variable, ill-typed expression}) x every single host write before it; " +
-				"H: every history of <=3 (quick) / 4 (thorough) statements over a reduced alphabet plus reads, with up to 1 (quick) / 2 (thorough) host writes between steps; L: every compound assignment executed repeatedly in a jump loop; " +
+				"H: every history of <=3 (quick) / 4 (thorough) statements over a reduced alphabet plus reads, with up to 1 (quick) / 2 (thorough) host writes between steps; L: every compound assignment executed repeatedly in a jump loop; L2: every assignment of a compound expression (<=2 arithmetic operators, negation) over {$v,$w,1,2} executed three times in a jump loop with up to 2 host writes between steps; strings containing % among the stored and appended values; " +
 				"each on a harness-implemented recording storer and on a recording wrapper around the library's in-memory storer; after every Next: GetValues and GetValue of every name against the model store, one type per name, and every successful assignment reached the host's storer; non-trivial = every case (each runs at least one assignment)",
 			StatesMean:  "(history, trace prefix) pairs; transitions = real Next calls and host writes",
 			Assumptions: []string{"small-scope hypothesis", "histories are compared up to the first failing statement (what follows an error is not fixed by the property)"},
@@ -179,9 +179,9 @@ func runC03(ctx *report.Ctx) {
 	allOps := []string{"=", "+=", "-=", "*=", "/=", "%="}
 	rhsFull := func(other string) []*yc.Expr {
 		return []*yc.Expr{yc.ENumber(2), yc.ENumber(0), yc.EBoolean(true), yc.EString("a"), yc.EVariable(other), yc.EVariable("u"),
-			yc.EBinary("+", yc.ENumber(1), yc.EString("a")), yc.ENumber(0.5), yc.EString("")}
+			yc.EBinary("+", yc.ENumber(1), yc.EString("a")), yc.ENumber(0.5), yc.EString(""), yc.EString("%d %s")}
 	}
-	initV := []*yc.Value{nil, {K: yc.VNum, N: 6}, {K: yc.VBool, B: true}, {K: yc.VStr, S: "s"}}
+	initV := []*yc.Value{nil, {K: yc.VNum, N: 6}, {K: yc.VBool, B: true}, {K: yc.VStr, S: "s"}, {K: yc.VStr, S: "100%"}}
 	initW := []*yc.Value{nil, {K: yc.VNum, N: 3}, {K: yc.VStr, S: "t"}}
 	mkInit := func(c *explore.Chooser) map[string]yc.Value {
 		init := map[string]yc.Value{}
@@ -255,13 +255,47 @@ func runC03(ctx *report.Ctx) {
 		c03Walk(ctx, c, "H", p, map[string]yc.Value{}, kind, hdev, 2)
 	})
 
+	// L2: an assignment whose right-hand side is a compound expression over variables, executed several times
+	// (loop through a jump) while the host writes the variables between steps: every execution stores the
+	// value the expression has now
+	{
+		atoms := []func() *yc.Expr{func() *yc.Expr { return yc.EVariable("v") }, func() *yc.Expr { return yc.EVariable("w") }, func() *yc.Expr { return yc.ENumber(1) }, func() *yc.Expr { return yc.ENumber(2) }}
+		arith := []string{"+", "*", "-"}
+		part(ctx, "L2", 2, func(c *explore.Chooser) {
+			atom := func() *yc.Expr { return atoms[c.Choose(len(atoms), "atom")]() }
+			var e *yc.Expr
+			switch c.Choose(5, "shape") {
+			case 0:
+				e = yc.EBinary(arith[c.Choose(3, "op1")], yc.EBinary(arith[c.Choose(3, "op2")], atom(), atom()), atom())
+			case 1:
+				e = yc.EBinary(arith[c.Choose(3, "op1")], atom(), yc.EBinary(arith[c.Choose(3, "op2")], atom(), atom()))
+			case 2:
+				e = yc.EBinary(arith[c.Choose(3, "op1")], yc.ENegate(atom()), atom())
+			case 3:
+				e = yc.ENegate(yc.EBinary(arith[c.Choose(3, "op1")], atom(), atom()))
+			case 4:
+				e = yc.EBinary(arith[c.Choose(3, "op1")], atom(), atom())
+			}
+			op := []string{"=", "+="}[c.Choose(2, "op")]
+			kind := c.Choose(2, "storer")
+			if !c.Mine() {
+				return
+			}
+			p := &yc.Program{Nodes: []*yc.Node{
+				{Title: "S", Body: []*yc.Stmt{yc.Set("t", "=", yc.ENumber(0)), yc.Jump("A")}},
+				{Title: "A", Body: []*yc.Stmt{yc.Set("t", op, e), readLine("t"), yc.Set("v", "+=", yc.ENumber(1)), yc.Jump("A")}},
+			}}
+			c03Walk(ctx, c, "L2", p, map[string]yc.Value{"v": yc.Num(6), "w": yc.Num(3)}, kind, 2, 3)
+		})
+	}
+
 	// L: the same assignment statement executed several times (loop through a jump)
 	rounds := report.Pick(ctx, 4, 6)
 	part(ctx, "L", 0, func(c *explore.Chooser) {
-		startVals := []*yc.Expr{yc.ENumber(6), yc.ENumber(0.5), yc.EString("s")}
+		startVals := []*yc.Expr{yc.ENumber(6), yc.ENumber(0.5), yc.EString("s"), yc.EString("5%")}
 		start := startVals[c.Choose(len(startVals), "start")]
 		op := allOps[c.Choose(len(allOps), "op")]
-		rhs := []*yc.Expr{yc.ENumber(2), yc.ENumber(1), yc.ENumber(0.5), yc.EString("a"), yc.EVariable("v"), yc.EBinary("+", yc.ENumber(1), yc.ENumber(1))}
+		rhs := []*yc.Expr{yc.ENumber(2), yc.ENumber(1), yc.ENumber(0.5), yc.EString("a"), yc.EVariable("v"), yc.EBinary("+", yc.ENumber(1), yc.ENumber(1)), yc.EString("%v")}
 		e := rhs[c.Choose(len(rhs), "rhs")]
 		viaDeclare := c.Choose(2, "declare-first") == 1
 		kind := c.Choose(2, "storer")
